@@ -225,6 +225,9 @@ def rule_pool(ck: Check, repo: Repo, rid: str = "R2") -> None:
 
 WORKER = "reuse.report._MultiprocessingContainer.__call__"
 # in-place updates of longer-lived state that the per-file task is allowed to make: (function, target) -> reason
+from ..canon import ref_table as _ref_table
+_KNOWN_FNS = set(_ref_table().get("__functions__", []))
+
 WORKER_STATE_EXCEPTIONS = {
     (WORKER, "self.reuse_dep5"): "lazy, idempotent re-parse of .reuse/dep5 inside a worker (R2 checks the guard and the value)",
     (WORKER, "self.project.global_licensing"): "same memo: the parsed dep5 is stored where the serial path reads it (R2)",
@@ -234,12 +237,28 @@ WORKER_STATE_EXCEPTIONS = {
 def _param_fresh_at_all_sites(repo: Repo, cg: CallGraph, fr, reach, q: str, recv: ast.AST, depth: int) -> bool:
     """`recv` is a bare parameter of q (or a subscript of one) and every call site of q inside the task passes an
     object created by the caller."""
-    while isinstance(recv, ast.Subscript):
+    new_method = bool(_KNOWN_FNS) and q not in _KNOWN_FNS
+    while isinstance(recv, ast.Subscript) or (new_method and isinstance(recv, ast.Attribute)):
         recv = recv.value
     if not isinstance(recv, ast.Name) or depth == 0:
         return False
     fn = repo.functions[q]
     params = [a.arg for a in fn.args.posonlyargs + fn.args.args]
+    if new_method and recv.id == "self" and params[:1] == ["self"]:
+        # a method the confirmed tree does not have (code moved out of its caller): `self` is the object the method is called
+        # on at each site - own when every site calls it on an object the caller created
+        sites = [(g, node) for g in reach for t, node in cg.edges.get(g, []) if t == q and isinstance(node, ast.Call)]
+        if not sites:
+            return False
+        for g, call in sites:
+            if not isinstance(call.func, ast.Attribute):
+                return False
+            obj = call.func.value
+            if fr.fresh(obj, repo.functions[g], g):
+                continue
+            if not _param_fresh_at_all_sites(repo, cg, fr, reach, g, obj, depth - 1):
+                return False
+        return True
     if recv.id not in params or recv.id in ("self", "cls"):
         return False
     pos = params.index(recv.id)
@@ -294,6 +313,9 @@ def rule_task_purity(ck: Check, repo: Repo, cg: CallGraph, rid: str = "R6") -> N
             n_sites += 1
             tgt = what.split(" = ")[0].split(" ")[0] if " = " in what else ast.unparse(recv)
             exc = WORKER_STATE_EXCEPTIONS.get((q, tgt))
+            if exc is None and _KNOWN_FNS and q not in _KNOWN_FNS and q.rsplit(".", 1)[0] == WORKER.rsplit(".", 1)[0]:
+                # the memo moved into a method of the same class that the confirmed tree does not have: the same state, the same entry
+                exc = WORKER_STATE_EXCEPTIONS.get((WORKER, tgt))
             r.instance(f"{q}:{what}@{n_sites}", {"function": q, "mutation": what, "own_object": ok, "exception": exc}, q)
             if ok:
                 continue
